@@ -2,7 +2,7 @@
 From Coq Require Import List Bool Arith NArith Lia.
 From PV Require Import Base.PyData C08.Model C08.ProofsGraph C08.ProofsStep C08.Proofs C08.ProofsRefine C08.ProofsDecimal
   C08.ProofsRefine2 C08.ProofsRefine3 C08.ProofsRefine4 C08.ProofsRefine5 C08.ProofsRefine6 C08.ProofsRefine7
-  C08.ProofsRefine8 C08.ProofsRefine9 C08.ProofsRefine10.
+  C08.ProofsRefine8 C08.ProofsRefine9 C08.ProofsRefine10 C08.ProofsRefine11 C08.ProofsRefine12 C08.ProofsRefine13.
 Import ListNotations.
 Local Open Scope nat_scope.
 
@@ -10,7 +10,7 @@ Definition abs_proved (f : req) (s : sk) : bool :=
   let tr := s_transits s in
   match f, s_abs s with
   | AbsInst, INST | AbsInst, ZO => negb (Nat.eqb tr 1)
-  | AbsInst, FO | AbsInst, SEQ => Nat.eqb tr 0
+  | AbsInst, FO | AbsInst, SEQ => true
   | AbsFO, INST | AbsFO, FO | AbsFO, SEQ => true
   | AbsFO, ZO => Nat.eqb tr 0
   | AbsZO, INST => negb (Nat.eqb tr 1)
@@ -26,9 +26,13 @@ Proof.
   intros Hf H. unfold abs_proved in H.
   destruct f; try discriminate Hf; destruct (s_abs s) eqn:Ha; try discriminate H.
   - (* AbsInst INST *) apply refines_abs_single_pass. unfold abs_case_proved. rewrite Ha. exact H.
-  - apply refines_inst_remove_depot; [unfold s_depot; rewrite Ha; reflexivity | apply Nat.eqb_eq; exact H].
+  - destruct (Nat.eq_dec (s_transits s) 0) as [Et|Nt].
+    + apply refines_inst_remove_depot; [unfold s_depot; rewrite Ha; reflexivity | exact Et].
+    + apply refines_inst_depot_chain; [unfold s_depot; rewrite Ha; reflexivity | lia].
   - apply refines_abs_single_pass. unfold abs_case_proved. rewrite Ha. exact H.
-  - apply refines_inst_remove_depot; [unfold s_depot; rewrite Ha; reflexivity | apply Nat.eqb_eq; exact H].
+  - destruct (Nat.eq_dec (s_transits s) 0) as [Et|Nt].
+    + apply refines_inst_remove_depot; [unfold s_depot; rewrite Ha; reflexivity | exact Et].
+    + apply refines_inst_depot_chain; [unfold s_depot; rewrite Ha; reflexivity | lia].
   - (* AbsFO INST *) destruct (Nat.eqb (s_transits s) 0) eqn:Et.
     + apply refines_fo_insert_depot; [unfold s_depot; rewrite Ha; reflexivity | apply Nat.eqb_eq; exact Et].
     + apply refines_abs_single_pass. unfold abs_case_proved. rewrite Ha, Et. reflexivity.
@@ -50,15 +54,19 @@ Proof.
 Qed.
 
 (* set_transit_compartments: every branch that keeps the depot (or has none), on valid states; creating a
-   chain while a lag time is set is the recorded anomaly and is left out *)
-Definition transits_proved (n : nat) (keep : bool) (s : sk) : bool :=
+   chain while a lag time is set is the recorded anomaly and is left out; keep_depot=False on a depot:
+   without transits (dose to central, depot removed, chain created in front of central) and behind a
+   chain (last transit connected to central, depot removed, then the loops on that system), every n *)
+Definition transits_kept (n : nat) (keep : bool) (s : sk) : bool :=
   valid s && (keep || negb (s_depot s))
   && (Nat.eqb (canon_transits s) n || negb (Nat.eqb (s_transits s) 0)
       || (Nat.eqb n 1 && absk_eqb (s_abs s) INST) || negb (s_lag s)).
+Definition transits_proved (n : nat) (keep : bool) (s : sk) : bool :=
+  transits_kept n keep s || (negb keep && s_depot s).
 
-Lemma transits_refines n keep s : transits_proved n keep s = true -> refines (Transits n keep) s = true.
+Lemma transits_kept_refines n keep s : transits_kept n keep s = true -> refines (Transits n keep) s = true.
 Proof.
-  unfold transits_proved. intro H. apply andb_true_iff in H. destruct H as [H H3].
+  unfold transits_kept. intro H. apply andb_true_iff in H. destruct H as [H H3].
   apply andb_true_iff in H. destruct H as [Hv H2].
   assert (Hk : keep = true \/ s_depot s = false).
   { destruct keep; [left; reflexivity | right]. cbn [orb] in H2. apply negb_true_iff in H2. exact H2. }
@@ -81,6 +89,21 @@ Proof.
     + destruct n as [|n'].
       * apply refines_transits_remove_all; try assumption; lia.
       * apply refines_transits_remove; try assumption; lia.
+Qed.
+
+Lemma transits_refines n keep s : transits_proved n keep s = true -> refines (Transits n keep) s = true.
+Proof.
+  unfold transits_proved. intro H. apply orb_true_iff in H. destruct H as [H|H].
+  - apply transits_kept_refines. exact H.
+  - apply andb_true_iff in H. destruct H as [Hk Hd].
+    destruct keep; [discriminate Hk|].
+    destruct (Nat.eq_dec (s_transits s) 0) as [Et|Nt]; [apply refines_transits_nodepot; assumption|].
+    destruct (Nat.lt_trichotomy (s_transits s) n) as [L|[E|G]].
+    + apply refines_transits_nodepot_add; try assumption; lia.
+    + rewrite <- E. apply refines_transits_nodepot_same; [assumption | lia].
+    + destruct n as [|n'].
+      * apply refines_transits_nodepot_remove_all; [assumption | lia].
+      * apply refines_transits_nodepot_remove; try assumption; lia.
 Qed.
 
 Definition refines_proved (f : req) (s : sk) : bool :=
@@ -117,10 +140,8 @@ Proof. intros H Hv Hg. apply refines_sound; [apply setter_refines_lemma; exact H
 (* the residual (request, state) classes: everything else on valid states within the guard is covered *)
 Definition open_case (f : req) (s : sk) : bool :=
   match f with
-  | AbsInst => s_depot s && (2 <=? s_transits s)                       (* depot behind two or more transits *)
   | AbsSeq => absk_eqb (s_abs s) INST && Nat.eqb (s_transits s) 0      (* two passes through set_first_order_absorption *)
   | PerSet n => S (s_periph s) <? n                                    (* two or more additions *)
-  | Transits _ keep => negb keep && s_depot s                          (* the depot is removed first *)
   | _ => false
   end.
 
@@ -137,7 +158,10 @@ Lemma transits_covered n keep s :
   valid s = true -> guard (Transits n keep) s = true -> open_case (Transits n keep) s = false ->
   transits_proved n keep s = true.
 Proof.
-  intros Hv Hg Hk'. cbn [open_case] in Hk'. unfold transits_proved. rewrite Hv. cbn [andb].
+  intros Hv Hg Ho. clear Ho. unfold transits_proved.
+  destruct (negb keep && s_depot s) eqn:Hk'.
+  { apply orb_true_r. }
+  rewrite orb_false_r. unfold transits_kept. rewrite Hv. cbn [andb].
   replace (keep || negb (s_depot s)) with true by (destruct keep, (s_depot s); try reflexivity; discriminate Hk').
   cbn [andb].
   unfold guard in Hg. rewrite !andb_true_iff in Hg. destruct Hg as [[[[[[[[_ _] _] _] _] G] _] _] _].
